@@ -210,7 +210,7 @@ def gen_cases(ck):
         n = nsteps(prog)
         for mode, out in (('bsd', 'file'), ('sysv', 'file'), ('bsd', 'closed')):
             for k in (1, 2, 3):
-                kinds = all_kinds if (thorough or k <= 1) else alternating
+                kinds = all_kinds if (k <= 1 or (thorough and (k == 2 or (mode, out) == ('bsd', 'file')))) else alternating
                 if k == 3 and not thorough:
                     continue
                 if k == 2 and not thorough and pi == 2 and (mode, out) != ('bsd', 'file'):
@@ -256,9 +256,9 @@ def gen_cases(ck):
                 continue
             for k in (0, 1, 2, 3):
                 if var == 'APP':
-                    kinds = all_kinds if k <= 2 else (all_kinds if thorough else int_only)
+                    kinds = all_kinds if k <= 2 else (all_kinds if (thorough and mode == 'bsd') else alternating if thorough else int_only)
                 else:
-                    kinds = all_kinds if (k <= 1 or thorough) else alternating
+                    kinds = all_kinds if (k <= 1 or (thorough and k == 2)) else alternating
                 if k == 3 and not thorough:
                     continue
                 cnt = 0
